@@ -81,7 +81,7 @@ func enumIfacePaths(v *V, te string, depth int) []pinfo {
 			below = true
 		}
 		s := v
-		if s.K == "ptr" && !s.Nil {
+		if s.K == "ptr" && !s.Nil && s.T != "any" {
 			s = s.P
 		}
 		switch s.K {
@@ -230,7 +230,7 @@ func looseZeroExact(v *V, te string) bool {
 
 var srcTypeW = []string{"Outer", "Outer", "Outer", "*Outer", "*Outer", "Inner", "*Inner", "Leaf", "*Leaf",
 	"map[string]any", "map[string]any", "map[string]Inner", "map[string]*Inner", "map[string]Leaf",
-	"map[string]int", "map[string]string", "int", "string", "map[string]map[string]any"}
+	"map[string]int", "map[string]string", "int", "string", "map[string]map[string]any", "any"}
 var tgtTypeW = []string{"Outer", "Outer", "Outer", "*Outer", "*Outer", "Inner", "*Inner", "Leaf",
 	"map[string]any", "map[string]any", "any", "map[string]Inner", "map[string]Inner", "map[string]*Inner",
 	"map[string]Leaf", "map[string]int", "map[string]string", "map[string]map[string]any", "map[string]Outer"}
@@ -632,13 +632,21 @@ func (g *gen) nilCase() *Case {
 			m.F["k"] = vNil()
 			m.F["j"] = other
 			d = Decl{S: "map[string]any", Val: m, Maps: []Mapping{{From: []string{"k"}, To: tp.path}}}
-		case 1: // below an interface-typed field
+		case 1: // below an interface-typed field: one step (checked like a static `any`) or two (intermediate interface)
 			inner := vMap("any")
 			inner.F["a"] = vNil()
 			inner.F["b"] = other
+			from := []string{"H", "a"}
+			if r.Chance(1, 2) {
+				deep := vMap("any")
+				deep.F["b"] = vNil()
+				deep.F["c"] = other
+				inner.F["a"] = deep
+				from = []string{"H", "a", "b"}
+			}
 			o := vStruct("Outer")
 			o.F["H"] = inner
-			d = Decl{S: "Outer", Val: o, Maps: []Mapping{{From: []string{"H", "a"}, To: tp.path}}}
+			d = Decl{S: "Outer", Val: o, Maps: []Mapping{{From: from, To: tp.path}}}
 		default: // the interface-typed field itself is nil
 			o := vStruct("Outer")
 			if !looseZeroExact(other, "int") && other.K == "int" {
@@ -653,6 +661,142 @@ func (g *gen) nilCase() *Case {
 	}
 	if r.Chance(1, 2) {
 		c.Decls = append(c.Decls, g.decl(T, tpaths, 1, &used))
+	}
+	return c
+}
+
+// static values (SetStaticValue on the successor): constants at target paths, mostly fitting
+// and non-overlapping; sometimes of the wrong type, at a bogus path, or overlapping a mapping
+func (g *gen) addStatics(c *Case, tpaths []pinfo) string {
+	r := g.r
+	used := targetPaths(c.Decls)
+	kind := "ok"
+	n := r.Range(1, 2)
+	for i := 0; i < n && len(tpaths) > 0; i++ {
+		var tp pinfo
+		for try := 0; try < 30; try++ {
+			tp = tpaths[r.Intn(len(tpaths))]
+			conflict := false
+			for _, u := range used {
+				if isPrefix(u, tp.path) || isPrefix(tp.path, u) {
+					conflict = true
+				}
+			}
+			if !conflict {
+				break
+			}
+		}
+		s := Static{To: tp.path, Val: g.value(tp.ty, 2)}
+		switch {
+		case r.Chance(1, 8):
+			kind = "wrong-type"
+			s.Val = g.value([]string{"int", "string", "Leaf", "*Inner", "map[string]int"}[r.Intn(5)], 1)
+		case r.Chance(1, 12):
+			kind = "bogus-path"
+			s.To = cat(s.To, "nope")
+		case r.Chance(1, 12):
+			kind = "nil"
+			s.Val = vNil()
+		case r.Chance(1, 10) && len(used) > 0:
+			kind = "overlap"
+			s.To = used[r.Intn(len(used))]
+		}
+		used = append(used, s.To)
+		c.Statics = append(c.Statics, s)
+	}
+	return kind
+}
+
+// a unit case: convertTo on 2-4 keys; half of them with an overlapping pair whose prefix key holds a
+// container value (pointer / map / struct / any), so that the iteration order decides whether the
+// walker writes into that value
+func (g *gen) unitCase() *Case {
+	r := g.r
+	T := []string{"Outer", "Outer", "*Outer", "map[string]Outer", "map[string]Inner", "map[string]*Inner", "Inner", "map[string]any", "any", "map[string]map[string]any"}[r.Intn(10)]
+	tpaths := enumPaths(T, g.depth, true)
+	if len(tpaths) == 0 {
+		return nil
+	}
+	c := &Case{T: T, Note: "unit"}
+	var used [][]string
+	add := func(tp pinfo) {
+		v := g.value(tp.ty, 2)
+		if r.Chance(1, 12) {
+			v = g.value([]string{"int", "string", "Leaf"}[r.Intn(3)], 1)
+		}
+		c.Unit = append(c.Unit, Static{To: tp.path, Val: v})
+		used = append(used, tp.path)
+	}
+	n := r.Range(2, 4)
+	if r.Chance(1, 2) {
+		// an overlapping pair: a key and one of its extensions
+		var pairs [][2]pinfo
+		for _, p := range tpaths {
+			for _, q := range tpaths {
+				if len(q.path) > len(p.path) && isPrefix(p.path, q.path) {
+					pairs = append(pairs, [2]pinfo{p, q})
+				}
+			}
+		}
+		if len(pairs) > 0 {
+			pq := pairs[r.Intn(len(pairs))]
+			c.Note = "unit-overlap"
+			// the prefix key gets a non-nil container most of the time
+			v := g.value(pq[0].ty, 2)
+			for try := 0; try < 5 && (v.Nil || v.K == "nil"); try++ {
+				v = g.value(pq[0].ty, 2)
+			}
+			c.Unit = append(c.Unit, Static{To: pq[0].path, Val: v})
+			used = append(used, pq[0].path)
+			add(pq[1])
+			n -= 2
+		}
+	}
+	for i := 0; i < n; i++ {
+		var tp pinfo
+		ok := false
+		for try := 0; try < 30; try++ {
+			tp = tpaths[r.Intn(len(tpaths))]
+			conflict := false
+			for _, u := range used {
+				if isPrefix(u, tp.path) || isPrefix(tp.path, u) {
+					conflict = true
+				}
+			}
+			if !conflict {
+				ok = true
+				break
+			}
+		}
+		if !ok {
+			break
+		}
+		add(tp)
+	}
+	// keys are unique in a Go map
+	var out []Static
+	for _, s := range c.Unit {
+		dup := false
+		for _, o := range out {
+			if strings.Join(o.To, "\x1f") == strings.Join(s.To, "\x1f") {
+				dup = true
+			}
+		}
+		if !dup {
+			out = append(out, s)
+		}
+	}
+	c.Unit = out
+	if len(c.Unit) < 1 {
+		return nil
+	}
+	if r.Chance(1, 2) {
+		p := r.Perm(len(c.Unit))
+		sh := make([]Static, len(c.Unit))
+		for i, j := range p {
+			sh[i] = c.Unit[j]
+		}
+		c.Unit = sh
 	}
 	return c
 }
